@@ -5,7 +5,7 @@ import json, os, subprocess, sys
 base = json.load(open('/root/.vp/BASELINE.json'))
 stable = set(base['stable_pass'])
 env = dict(os.environ, GOFLAGS='-mod=mod', GOPROXY='off', GOSUMDB='off', GOTOOLCHAIN='local')
-p = subprocess.run(['go', 'test', '-json', '-vet=off', '-count=1', '-timeout', '25m', './...'], cwd='/repo', env=env,
+p = subprocess.run(['go', 'test', '-json', '-vet=off', '-count=1', '-timeout', '25m', './...'], cwd=(sys.argv[1] if len(sys.argv) > 1 else '/repo'), env=env,
                    stdout=subprocess.PIPE, stderr=subprocess.STDOUT, text=True)
 passed, failed = set(), set()
 for line in p.stdout.splitlines():
